@@ -119,7 +119,8 @@ def run(ctx, report: Report) -> None:
     from .e2ematch import scope_independence_table
     scope_independence_table(ctx, r6)
 
-
-
-
-
+    # ---- R7 (the whole pipeline by interpretation, bounded) --------------------------------------------------------------
+    r7 = report.rule('C03-R7', ':scope and & denote exactly the element the call was made on, in every position of a selector and through every '
+                     'entry point (bounded)', floor=10)
+    from .e2ematch import scope_denotation_table
+    scope_denotation_table(ctx, r7, deep=(ctx.tier == 'thorough'))
